@@ -49,9 +49,29 @@ pub fn push_fp(msg: &mut Vec<u8>, correct: bool) {
     let newlen = msg.len() - 20 + 8;
     msg[2] = (newlen >> 8) as u8;
     msg[3] = newlen as u8;
-    let mut c = crc32(msg) ^ 0x5354554e;
+    let good = crc32(msg) ^ 0x5354554e;
+    let mut c = good;
     if !correct {
-        c ^= 0x0100_0000;
+        // wrong in a *plausible* way (what a sloppy peer might send and a lenient parser might let through):
+        // one flipped bit; the CRC taken with the length field not yet covering the FINGERPRINT attribute, or
+        // covering only its header; the XOR constant forgotten; the value in little-endian order
+        let with_len = |l: usize| {
+            let mut m = msg.clone();
+            m[2] = (l >> 8) as u8;
+            m[3] = l as u8;
+            crc32(&m)
+        };
+        c = match (good >> 5) % 6 {
+            0 => good ^ 0x0100_0000,
+            1 => with_len(newlen - 8) ^ 0x5354554e,
+            2 => with_len(newlen - 4) ^ 0x5354554e,
+            3 => good ^ 0x5354554e,
+            4 => good.swap_bytes(),
+            _ => with_len(newlen + 4) ^ 0x5354554e,
+        };
+        if c == good {
+            c ^= 1;
+        }
     }
     msg.extend(tlv(FP, &c.to_be_bytes(), 0));
 }
@@ -871,6 +891,27 @@ pub fn gen_fp(c: &mut Ctx, out: &mut Vec<String>) {
             continue;
         }
         out.push(format!("msg op=acc b={}", hex(&msg)));
+        // the CRC value replaced by plausible near-misses (a burst inside the 32-bit value): the CRC taken with
+        // the length field at other stages of assembly, without the XOR constant, byte-swapped
+        {
+            let n = msg.len();
+            let body_len = n - 20;
+            let with_len = |l: usize| {
+                let mut m = msg[..n - 8].to_vec();
+                m[2] = (l >> 8) as u8;
+                m[3] = l as u8;
+                crc32(&m)
+            };
+            let good = with_len(body_len) ^ 0x5354554e;
+            for alt in [with_len(body_len - 8) ^ 0x5354554e, with_len(body_len - 4) ^ 0x5354554e, with_len(body_len + 4) ^ 0x5354554e,
+                        with_len(body_len), good.swap_bytes(), with_len(0) ^ 0x5354554e, !good] {
+                if alt != good {
+                    let mut m = msg.clone();
+                    m[n - 4..].copy_from_slice(&alt.to_be_bytes());
+                    out.push(format!("msg op=acc b={}", hex(&m)));
+                }
+            }
+        }
         let nbits = msg.len() * 8;
         // every single-bit flip
         for j in 0..nbits {
